@@ -7,7 +7,7 @@
     boundaries [>= k0]. *)
 From Coq Require Import List NArith ZArith Bool Lia ZifyBool ZifyNat ZifyN.
 From ApiFu Require Import Base.Sexp Lex.ListAux Lex.Utf8 Lex.LexModel Lex.LexSpec Lex.LexRel Lex.Utf8Proofs
-  Lex.LexProgress Lex.LexSync Lex.LexSpecFacts Lex.LexClasses Lex.LexStrings Lex.LexStep Lex.LexRefine
+  Lex.LexProgress Lex.LexSync Lex.LexSpecFacts Lex.LexClasses Lex.LexStrings Lex.LexStep Lex.LexStepStrong Lex.LexRefine
   Lex.LexErrors Lex.LexPrefixSpec Lex.LexMode.
 Import ListNotations.
 Open Scope Z_scope.
@@ -75,12 +75,12 @@ Section Prefix.
     assert (Htext : st_text tok = firstn (S j) (c :: t)) by reflexivity.
     pose proof (sync_not_done _ _ _ _ _ Hs) as Hnd.
     destruct (scan_switch_ok st Hnd) as (k & sv & st1 & Hsw & _).
-    pose proof (scan_switch_sync _ Hscalar _ _ _ _ _ _ _ Hs Hsw) as HP. unfold step_post in HP.
+    pose proof (scan_switch_sync_s _ Hscalar _ _ _ _ _ _ _ Hs Hsw) as HP. unfold step_post_s in HP.
     rewrite Elt in HP. destruct HP as [_ HP].
     rewrite (trouble_excl cps n (c :: t) st sk (S j) Hs), <- Htokeq in HP.
     cbn [agreed].
     destruct (dangling_exponent cps tok || inner_bom tok) eqn:Etr; [eapply prefix_trivial; eassumption|].
-    destruct HP as [HG|[_ (d & r & Hsk & Hnone)]].
+    destruct HP as [HG|(_ & (d & r & Hsk & Hnone) & Hcomment)].
     - pose proof (good_token _ _ _ _ _ _ _ _ _ Hs HG) as Htok. rewrite <- Htokeq in Htok.
       destruct HG as (Hk & Hs1 & He1 & Hv).
       destruct fm as [|fm]; [discriminate|]. cbn [scan_all] in H.
@@ -105,7 +105,7 @@ Section Prefix.
           rewrite skipn_skipn in HY. rewrite Nat.add_assoc. split; [exact HY|].
           split; [rewrite HE; exact He1|]. rewrite skipn_length in HC. lia. }
         destruct ts' as [|t' ts''].
-        * cbn [agreed] in CONS. destruct (is_end_error e); [|exact CONS].
+        * cbn [agreed] in CONS. destruct (is_end_error e && is_comment tok); [|exact CONS].
           apply (prefix_trivial n _ st (S fm) _ es Hs). cbn [scan_all].
           rewrite (scan_round_true _ _ _ _ _ Hnd Hsw) by (rewrite Hk; apply tok_of_kind_valid).
           rewrite E1. reflexivity.
@@ -113,7 +113,7 @@ Section Prefix.
       + (* a token reaching beyond the text: it is the last one and the text ends with it *)
         rewrite (skipn_all2 (c :: t)) in ES by lia.
         destruct fs as [|fs']; [simpl in Hfs; lia|]. cbn [spec_scan] in ES. inversion ES; subst ts' e.
-        cbn [is_end_error]. cbv iota.
+        cbn [is_end_error andb]. cbv iota.
         assert (Hm : length (st_text tok) = length (c :: t)) by (rewrite Htext; rewrite firstn_all2 by lia; reflexivity).
         exists ts1, st1, fm. split; [cbn [map app]; rewrite Htok; reflexivity|]. split; [exact E1|].
         assert (Hc : agreed_count [tok] = length (c :: t)).
@@ -123,7 +123,8 @@ Section Prefix.
     - (* the grammar has no token right after this one: it is the last before the failure *)
       rewrite Hsk in ES. destruct fs as [|fs']; [simpl in Hfs; lia|].
       cbn [spec_scan] in ES. rewrite Hnone in ES. inversion ES; subst ts' e. cbn [is_end_error].
-      eapply prefix_trivial; eassumption.
+      replace (is_comment tok) with true by (unfold is_comment, tok; cbn [st_kind]; rewrite Hcomment; reflexivity).
+      cbn [andb]. eapply prefix_trivial; eassumption.
   Qed.
 End Prefix.
 
